@@ -293,8 +293,16 @@ class PDFContentParser(PSStackParser[Union[PSKeyword, PDFStream]]):
         self.seek(pos)
         i = 0
         data = b""
+        at_eof = False
         while i <= len(target):
-            self.fillbuf()
+            try:
+                self.fillbuf()
+            except PSEOF:
+                if i < len(target):
+                    raise
+                # the end marker is the very last token of the content
+                at_eof = True
+                break
             if i:
                 ci = self.buf[self.charpos]
                 c = bytes((ci,))
@@ -318,7 +326,8 @@ class PDFContentParser(PSStackParser[Union[PSKeyword, PDFStream]]):
                 except ValueError:
                     data += self.buf[self.charpos :]
                     self.charpos = len(self.buf)
-        data = data[: -(len(target) + 1)]  # strip the last part
+        # strip the end marker and the white space after it
+        data = data[: -(len(target) + (0 if at_eof else 1))]
         # strip exactly one trailing end-of-line (`$` would also match before a final LF)
         data = re.sub(rb"(\x0d\x0a|[\x0d\x0a])\Z", b"", data)
         return (pos, data)
